@@ -220,8 +220,18 @@ impl<'a, 'b> Gen<'a, 'b> {
                 let (name, var) = self.scope.vars[self.scope.vars.len() - 1 - i].clone();
                 // static resolution: the latest variable of that name
                 let var = self.scope.vars.iter().rev().find(|(n, _)| *n == name).map(|x| x.1).unwrap_or(var);
-                let t = self.tok(&name);
-                out.push(Node::VarRef { tok: t, var });
+                if let Some(slot) = self.local_slot(&name) {
+                    // a local of the definition being compiled shadows the global of the same name
+                    let t = self.tok(&name);
+                    out.push(Node::LocalRef { tok: t, slot });
+                    self.feature("local-shadows-global");
+                } else {
+                    let t = self.tok(&name);
+                    out.push(Node::VarRef { tok: t, var });
+                    if self.fns.len() >= 2 && self.fns[..self.fns.len() - 1].iter().any(|f| f.locals.iter().any(|(n, _)| *n == name)) {
+                        self.feature("global-named-like-enclosing-local");
+                    }
+                }
             }
             2 => {
                 let f = self.fns.last().unwrap();
@@ -548,7 +558,11 @@ impl<'a, 'b> Gen<'a, 'b> {
                     out.push(self.prim(Prim::Drop));
                     return;
                 }
-                let name = LOCAL_NAMES[self.ch.below(3)].to_string();
+                let name = match self.ch.weighted(&[10, 2, 1]) {
+                    0 => LOCAL_NAMES[self.ch.below(3)].to_string(),
+                    1 => VAR_NAMES[self.ch.below(2)].to_string(),
+                    _ => WORD_NAMES[self.ch.below(2)].to_string(),
+                };
                 let slot = nlocals_declared;
                 if !self.loops.is_empty() {
                     self.feature("local-in-loop");
@@ -572,8 +586,14 @@ impl<'a, 'b> Gen<'a, 'b> {
                     let v = self.ch.range(0, 3) as i128;
                     out.push(self.lit_int(v));
                 }
-                let t = self.tok(&name);
-                out.push(Node::Call { tok: t, def });
+                if let Some(slot) = self.local_slot(&name) {
+                    let t = self.tok(&name);
+                    out.push(Node::LocalRef { tok: t, slot });
+                    self.feature("local-shadows-word");
+                } else {
+                    let t = self.tok(&name);
+                    out.push(Node::Call { tok: t, def });
+                }
                 self.feature("call");
             }
             14 => {
@@ -603,8 +623,13 @@ impl<'a, 'b> Gen<'a, 'b> {
                     let mut tb = vec![self.lit_int(1), self.prim(Prim::Sub)];
                     let mut mid = self.body(depth.saturating_sub(2), true);
                     tb.append(&mut mid);
-                    let t = self.tok(&name);
-                    tb.push(Node::Call { tok: t, def });
+                    if let Some(slot) = self.local_slot(&name) {
+                        let t = self.tok(&name);
+                        tb.push(Node::LocalRef { tok: t, slot });
+                    } else {
+                        let t = self.tok(&name);
+                        tb.push(Node::Call { tok: t, def });
+                    }
                     self.tok("else");
                     let eb = vec![self.prim(Prim::Drop)];
                     self.tok("then");
@@ -650,6 +675,11 @@ impl<'a, 'b> Gen<'a, 'b> {
         out.push(self.prim(Prim::Print));
     }
 
+    /// slot of the last local of that name declared so far in the definition being compiled
+    fn local_slot(&self, name: &str) -> Option<usize> {
+        self.fns.last().and_then(|f| f.locals.iter().rev().find(|(n, _)| n == name).map(|x| x.1))
+    }
+
     fn nest_in_fn(&self) -> usize {
         self.nest
     }
@@ -657,7 +687,18 @@ impl<'a, 'b> Gen<'a, 'b> {
     /// `g 1 + ! g  g N >=` (until / break style: true ends the loop) or `g N <` with increment (while style)
     fn counter_cond(&mut self, out: &mut Vec<Node>, exit_when_true: bool) {
         let i = self.ch.below(self.scope.vars.len());
-        let name = self.scope.vars[i].0.clone();
+        let mut name = self.scope.vars[i].0.clone();
+        if self.local_slot(&name).is_some() {
+            // the counter must be the global: take a variable that no local of this definition shadows
+            match self.scope.vars.iter().map(|v| v.0.clone()).find(|n| self.local_slot(n).is_none()) {
+                Some(n) => name = n,
+                None => {
+                    let t = self.tok(if exit_when_true { "true" } else { "false" });
+                    out.push(Node::Lit { tok: t, val: V::Flag(exit_when_true) });
+                    return;
+                }
+            }
+        }
         let var = self.scope.vars.iter().rev().find(|(n, _)| *n == name).unwrap().1;
         let n = self.ch.range(0, 4) as i128;
         let t = self.tok(&name);
